@@ -1,6 +1,7 @@
 SPECIFICATION TSpec
 CONSTANTS
-  AllocBound = 4194304
+  AllocFactor = 64
+  AllocSlack = 262144
   Reps = 4
 INVARIANTS TypeOK
 POSTCONDITION NoDeviation
